@@ -255,7 +255,7 @@ def run(tier, rep):
                             "distinct by (request framing, response framing, size classes, depth, segmentation, method)")
     shards = 8 if tier == "quick" else 16
     args = [{"shard": i, "tier": tier, "connections": 160 if tier == "quick" else 1500, "concurrency": 8 if i % 2 else 16, "max_per_conn": 15,
-             "exempt_max": (2 << 20) if tier == "quick" else (8 << 20), "big": i % 3 == 0, "runtime": ["multi:8", "multi:8", "multi:4", "current"][i % 4], "stress": 0 if i % 4 == 3 else 8} for i in range(shards)]
+             "exempt_max": (2 << 20) if tier == "quick" else (8 << 20), "big": i % 3 == 0, "runtime": ["multi:8", "multi:8", "multi:4", "current"][i % 4], "stress": 0 if i % 4 == 3 else (8 if tier == "quick" else 3)} for i in range(shards)]
     if tier == "thorough":
         # memcheck slice: ~25x slower, so 1/50 of a shard, no CPU burners, generous socket timeouts
         args.append({"shard": 1000, "tier": tier, "connections": 120, "concurrency": 4, "max_per_conn": 6, "exempt_max": 1 << 20, "big": True, "runtime": "multi:2", "stress": 0, "memcheck": True})
